@@ -5,7 +5,7 @@
    and "the rest of the graph is untouched" are decided on every generated case by the correspondence of the whole
    observation with the implementation and by the text-level oracle, not proved about the model. *)
 From Coq Require Import List String Ascii ZArith Bool.
-From GfaV Require Import Base.Py Gen.Tables Gen.K_mult Model.Codec Model.Graph Model.Multiply Proofs.MultiplyP Proofs.GraphP Proofs.FrameP.
+From GfaV Require Import Base.Py Gen.Tables Gen.K_mult Model.Codec Model.Graph Model.Multiply Proofs.MultiplyP Proofs.GraphP Proofs.FrameP Proofs.RealsP Proofs.MultiplyRecordsP.
 Import ListNotations.
 Open Scope string_scope.
 
@@ -104,3 +104,49 @@ Theorem C15_rest_of_the_graph_untouched : forall s n k names s',
             In x (lines s').
 Proof. exact multiply_frame. Qed.
 Print Assumptions C15_rest_of_the_graph_untouched.
+
+
+(* every copy carries every edge: without distribution the records after the multiplication are the records with the
+   counts divided followed, for each copy name in turn, by the segment under that name and each of its dovetails and
+   containments with the name substituted — for every factor, every list of names, every graph in which none of the new
+   lines meets a stored record of its identifier or oriented pair *)
+Theorem C15_every_copy_carries_every_edge : forall s n k cns s' seg0 seg,
+  ids_ok s -> (2 <= k)%Z ->
+  find_segment s n = Some seg0 -> find_segment (divided s n k seg0) n = Some seg ->
+  multiply s n k (Some cns) None = Ok s' ->
+  guards_all (divided s n k seg0) (flat_map (clone_lines seg (seg_edges (divided s n k seg0) n)) cns) ->
+  map body (reals s') =
+  (map body (reals (divided s n k seg0)) ++
+   map body (flat_map (clone_lines seg (seg_edges (divided s n k seg0) n)) cns))%list.
+Proof. exact multiply_records. Qed.
+Print Assumptions C15_every_copy_carries_every_edge.
+
+(* non-vacuity: a segment with a link and a containment, multiplied by 3 *)
+Example C15_copies_witness :
+  let t := String tab EmptyString in
+  let s0 := run_texts "gfa1" [OAdd ("S" ++ t ++ "A" ++ t ++ "*" ++ t ++ "RC:i:9"); OAdd ("S" ++ t ++ "B" ++ t ++ "*");
+     OAdd ("L" ++ t ++ "A" ++ t ++ "+" ++ t ++ "B" ++ t ++ "+" ++ t ++ "3M" ++ t ++ "KC:i:7");
+     OAdd ("C" ++ t ++ "B" ++ t ++ "+" ++ t ++ "A" ++ t ++ "+" ++ t ++ "0" ++ t ++ "*")] in
+  match find_segment s0 "A" with
+  | Some seg0 =>
+      match find_segment (divided s0 "A" 3 seg0) "A" with
+      | Some seg =>
+          guards_all_b (divided s0 "A" 3 seg0) (flat_map (clone_lines seg (seg_edges (divided s0 "A" 3 seg0) "A")) ["A2"; "A3"]) = true /\
+          match multiply s0 "A" 3 (Some ["A2"; "A3"]) None with
+          | Ok s' => map gl_text (reals s') =
+                     ["S" ++ t ++ "A" ++ t ++ "*" ++ t ++ "RC:i:3"; "S" ++ t ++ "B" ++ t ++ "*";
+                      "L" ++ t ++ "A" ++ t ++ "+" ++ t ++ "B" ++ t ++ "+" ++ t ++ "3M" ++ t ++ "KC:i:2";
+                      "C" ++ t ++ "B" ++ t ++ "+" ++ t ++ "A" ++ t ++ "+" ++ t ++ "0" ++ t ++ "*";
+                      "S" ++ t ++ "A2" ++ t ++ "*" ++ t ++ "RC:i:3";
+                      "L" ++ t ++ "A2" ++ t ++ "+" ++ t ++ "B" ++ t ++ "+" ++ t ++ "3M" ++ t ++ "KC:i:2";
+                      "C" ++ t ++ "B" ++ t ++ "+" ++ t ++ "A2" ++ t ++ "+" ++ t ++ "0" ++ t ++ "*";
+                      "S" ++ t ++ "A3" ++ t ++ "*" ++ t ++ "RC:i:3";
+                      "L" ++ t ++ "A3" ++ t ++ "+" ++ t ++ "B" ++ t ++ "+" ++ t ++ "3M" ++ t ++ "KC:i:2";
+                      "C" ++ t ++ "B" ++ t ++ "+" ++ t ++ "A3" ++ t ++ "+" ++ t ++ "0" ++ t ++ "*"]
+          | Err _ => False
+          end
+      | None => False
+      end
+  | None => False
+  end.
+Proof. vm_compute. repeat split. Qed.
